@@ -232,7 +232,8 @@ def run(ctx):
     ctx.notes['mpo_events'] = sum(1 for tr in traces for r in tr if r['ev'] == 'mpo')
     for tr in traces[2:2000:450]:
         ctx.sample([{k: v for k, v in r.items() if k not in ('g', 'A', 'opmap')} for r in tr][:6])
-    bad = validate_chunks(ctx, 'TraceOpChains', 'tc', traces, chunk=ctx.pick(60, 400))
+    bad = validate_chunks(ctx, 'TraceOpChains', 'tc', traces, chunk=ctx.pick(60, 400),
+                          relax=lambda tr: [r for r in tr if r.get('ev') not in ('site', 'partition', 'cover')])
     for idx, why in sorted(bad.items())[:40]:
         c = cases[idx]
         clause = why[0][2] if why and len(why[0]) > 2 else 'rejected'
